@@ -1,6 +1,7 @@
 package props
 
 import (
+	"os"
 	"fmt"
 	"go/types"
 	"sort"
@@ -183,6 +184,27 @@ func checkC17(c *core.Ctx, r *core.Report) {
 		}
 	}
 	r.Floor("ASSERT", "unchecked-form assertions in the Elasticsearch query-DSL walker", nEs, 10)
+	if os.Getenv("VERIF_EXPLORE_ASSERT") != "" {
+		per := map[string]int{}
+		for _, fn := range c.RepoFunctions() {
+			for _, b := range fn.Blocks {
+				for _, in := range b.Instrs {
+					ta, ok := in.(*ssa.TypeAssert)
+					if !ok || ta.CommaOk {
+						continue
+					}
+					if _, isIface := ta.X.Type().Underlying().(*types.Interface); !isIface {
+						continue
+					}
+					if assertTrivial(ta) || assertGuarded(ta) || assertArgAlwaysTyped(c, ta, 0) {
+						continue
+					}
+					per[core.FnPkgPath(fn)]++
+					fmt.Fprintf(os.Stderr, "EXPLORE %s %s %s\n", c.Pos(ta.Pos()), shortFn(fn), ta.AssertedType)
+				}
+			}
+		}
+	}
 
 	// ---------------------------------------------------------------- (5)
 	checkStateTable(c, r)
